@@ -11,6 +11,35 @@ import (
 	"verifharness/vh"
 )
 
+// chex prints a byte string as a Model.Delim.hxi term: bytes packed seven to a 63-bit integer
+// literal (string literals are ~20 times slower for Coq to elaborate).
+func chex(b []byte) string {
+	if len(b) == 0 {
+		return "[]"
+	}
+	var sb strings.Builder
+	last := len(b) % 7
+	if last == 0 {
+		last = 7
+	}
+	fmt.Fprintf(&sb, "(hxi %d%%nat [", last)
+	for i := 0; i < len(b); i += 7 {
+		j := i + 7
+		if j > len(b) {
+			j = len(b)
+		}
+		if i > 0 {
+			sb.WriteString("; ")
+		}
+		sb.WriteString("0x")
+		for _, c := range b[i:j] {
+			fmt.Fprintf(&sb, "%02x", c)
+		}
+	}
+	sb.WriteString("]%uint63)")
+	return sb.String()
+}
+
 // ---- values ------------------------------------------------------------------------------------
 
 var delimiters = []rune{',', '|', '\t', ' ', ';', ':', 'a', '\'', '\\', '.', 0x01, 0x7f, 0x80, 0xa0, 'é', 'ß', 0x7ff, 0x800,
@@ -165,7 +194,7 @@ func coqERow(row erow) string {
 		bl = append(bl, vh.CoqBool(b))
 	}
 	for _, f := range row.Fields {
-		fs = append(fs, "("+vh.CoqBool(f.Q)+", "+vh.CoqHex(f.V)+")")
+		fs = append(fs, "("+vh.CoqBool(f.Q)+", "+chex(f.V)+")")
 	}
 	return "mkRow " + vh.CoqList(bl) + " " + vh.CoqList(fs) + " " + vh.CoqBool(row.CRLF)
 }
@@ -193,9 +222,9 @@ func (p *pat) regex() string {
 }
 func (p *pat) coq() string {
 	if p.Prefix {
-		return "(PPrefix " + vh.CoqHex([]byte(p.Lit)) + ")"
+		return "(PPrefix " + chex([]byte(p.Lit)) + ")"
 	}
-	return "(PContains " + vh.CoqHex([]byte(p.Lit)) + ")"
+	return "(PContains " + chex([]byte(p.Lit)) + ")"
 }
 func (p *pat) match(line []byte) bool {
 	if p.Prefix {
@@ -322,7 +351,7 @@ type fcol struct {
 }
 
 func (c fcol) coq() string {
-	return fmt.Sprintf("mkFCol %s %s %s %s %s", vh.CoqHex([]byte(c.Name)), vh.CoqNat(c.Start), vh.CoqNat(c.Len), coqOptNat(c.LineIndex), coqOptPat(c.LinePat))
+	return fmt.Sprintf("mkFCol %s %s %s %s %s", chex([]byte(c.Name)), vh.CoqNat(c.Start), vh.CoqNat(c.Len), coqOptNat(c.LineIndex), coqOptPat(c.LinePat))
 }
 
 func (c fcol) schema(allowLineIndex bool) map[string]interface{} {
